@@ -1,0 +1,157 @@
+//go:build verif
+
+// Contracts for package geom, checked by /verif/engine (govc). This file is
+// comment-only: with the build tag off it is not compiled, with the tag on it
+// adds no code. Grammar: /verif/DESIGN.md, Appendix A.
+
+package geom
+
+//@ -- ---------------------------------------------------------------- boxes
+//@ pred inBox(b Bounds, x float64, y float64) = b.Min.X <= x && x <= b.Max.X && b.Min.Y <= y && y <= b.Max.Y
+//@ pred noNaNBox(b Bounds) = !isNaN(b.Min.X) && !isNaN(b.Min.Y) && !isNaN(b.Max.X) && !isNaN(b.Max.Y)
+//@ pred canonEmpty(b Bounds) = b.Min.X == posInf() && b.Min.Y == posInf() && b.Max.X == negInf() && b.Max.Y == negInf()
+//@ pred boxOK(b Bounds) = noNaNBox(b) && ((b.Min.X <= b.Max.X && b.Min.Y <= b.Max.Y) || canonEmpty(b))
+
+//@ spec emptyB() Bounds = Bounds(Point(posInf(), posInf()), Point(negInf(), negInf()))
+//@ spec extP(b Bounds, p Point) Bounds = Bounds(Point(goMin(b.Min.X, p.X), goMin(b.Min.Y, p.Y)), Point(goMax(b.Max.X, p.X), goMax(b.Max.Y, p.Y)))
+//@ spec joinB(a Bounds, b Bounds) Bounds = Bounds(Point(goMin(a.Min.X, b.Min.X), goMin(a.Min.Y, b.Min.Y)), Point(goMax(a.Max.X, b.Max.X), goMax(a.Max.Y, b.Max.Y)))
+//@ spec foldPts(b Bounds, pts []Point, k int) Bounds decreases k = k <= 0 ? b : extP(foldPts(b, pts, k-1), pts[k-1])
+//@ spec foldPaths(b Bounds, pp []Path, k int) Bounds decreases k = k <= 0 ? b : foldPts(foldPaths(b, pp, k-1), pp[k-1], len(pp[k-1]))
+//@ spec foldLines(b Bounds, ml []LineString, k int) Bounds decreases k = k <= 0 ? b : joinB(foldLines(b, ml, k-1), foldPts(emptyB(), ml[k-1], len(ml[k-1])))
+//@ spec foldPolys(b Bounds, mp []Polygon, k int) Bounds decreases k = k <= 0 ? b : joinB(foldPolys(b, mp, k-1), foldPaths(emptyB(), mp[k-1], len(mp[k-1])))
+//@ spec sumLen(pp []Path, k int) int decreases k = k <= 0 ? 0 : sumLen(pp, k-1) + len(pp[k-1])
+//@ spec sumLenL(ml []LineString, k int) int decreases k = k <= 0 ? 0 : sumLenL(ml, k-1) + len(ml[k-1])
+//@ spec sumLenP(mp []Polygon, k int) int decreases k = k <= 0 ? 0 : sumLenP(mp, k-1) + sumLen(mp[k-1], len(mp[k-1]))
+
+//@ func NewBounds
+//@   prop C04
+//@   mode fp
+//@   ensures [empty] fresh(result) && biteq(*result, emptyB())
+//@   modifies nothing
+
+//@ func NewBoundsPoint
+//@   prop C04
+//@   mode fp
+//@   ensures [point] fresh(result) && biteq(*result, Bounds(point, point))
+//@   modifies nothing
+
+//@ func (b *Bounds) Copy
+//@   prop C04
+//@   mode fp
+//@   requires [nonnil] b != nil
+//@   ensures [copy] fresh(result) && biteq(*result, *b)
+//@   modifies nothing
+
+//@ func (b *Bounds) Bounds
+//@   prop C04
+//@   mode fp
+//@   ensures [self] result == b
+//@   modifies nothing
+
+//@ func (b *Bounds) Len
+//@   prop C04
+//@   ensures [four] result == 4
+
+//@ func (b *Bounds) Empty
+//@   prop C04
+//@   mode fp
+//@   requires [nonnil] b != nil
+//@   requires [nonan] noNaNBox(*b)
+//@   ensures [no_point] result <==> !(exists x float64, y float64 :: inBox(*b, x, y))
+//@   modifies nothing
+
+//@ func (b *Bounds) Overlaps
+//@   prop C04
+//@   mode fp
+//@   requires [nonnil] b != nil && b2 != nil
+//@   requires [ok] boxOK(*b) && boxOK(*b2)
+//@   ensures [sound] result ==> inBox(*b, goMax(b.Min.X, b2.Min.X), goMax(b.Min.Y, b2.Min.Y)) && inBox(*b2, goMax(b.Min.X, b2.Min.X), goMax(b.Min.Y, b2.Min.Y))
+//@   ensures [complete] (exists x float64, y float64 :: inBox(*b, x, y) && inBox(*b2, x, y)) ==> result
+//@   modifies nothing
+
+//@ func (b *Bounds) extendPoint
+//@   prop C04
+//@   mode fp
+//@   requires [nonnil] b != nil
+//@   ensures [min] biteq(b.Min.X, goMin(old(b.Min.X), point.X)) && biteq(b.Min.Y, goMin(old(b.Min.Y), point.Y))
+//@   ensures [max] biteq(b.Max.X, goMax(old(b.Max.X), point.X)) && biteq(b.Max.Y, goMax(old(b.Max.Y), point.Y))
+//@   ensures [ret] result == b
+//@   modifies *b
+
+//@ func (b *Bounds) extendPoints
+//@   prop C04
+//@   mode fp
+//@   requires [nonnil] b != nil
+//@   ensures [fold] biteq(*b, foldPts(old(*b), points, len(points)))
+//@   modifies *b
+//@   loop 1 `for _, point := range points`
+//@     invariant [fold] 0 <= #1 && #1 <= len(points) && biteq(*b, foldPts(old(*b), points, #1))
+
+//@ func (b *Bounds) extendPointss
+//@   prop C04
+//@   mode fp
+//@   requires [nonnil] b != nil
+//@   ensures [fold] biteq(*b, foldPaths(old(*b), pointss, len(pointss)))
+//@   modifies *b
+//@   loop 1 `for _, points := range pointss`
+//@     invariant [fold] 0 <= #1 && #1 <= len(pointss) && biteq(*b, foldPaths(old(*b), pointss, #1))
+
+//@ func (p Point) Bounds
+//@   prop C04
+//@   mode fp
+//@   ensures [env] fresh(result) && biteq(*result, Bounds(p, p))
+//@   modifies nothing
+
+//@ func (p Point) Len
+//@   prop C04
+//@   ensures [one] result == 1
+
+//@ func (mp MultiPoint) Bounds
+//@   prop C04
+//@   mode fp
+//@   ensures [env] fresh(result) && biteq(*result, foldPts(emptyB(), mp, len(mp)))
+//@   modifies nothing
+//@   loop 1 `for _, p := range mp`
+//@     invariant [fold] 0 <= #1 && #1 <= len(mp) && fresh(b) && biteq(*b, foldPts(emptyB(), mp, #1))
+
+//@ func (mp MultiPoint) Len
+//@   prop C04
+//@   ensures [len] result == len(mp)
+
+//@ func (l LineString) Bounds
+//@   prop C04
+//@   mode fp
+//@   ensures [env] fresh(result) && biteq(*result, foldPts(emptyB(), l, len(l)))
+//@   modifies nothing
+
+//@ func (l LineString) Len
+//@   prop C04
+//@   ensures [len] result == len(l)
+
+//@ func (p Polygon) Bounds
+//@   prop C04
+//@   mode fp
+//@   ensures [env] fresh(result) && biteq(*result, foldPaths(emptyB(), p, len(p)))
+//@   modifies nothing
+
+//@ func (p Polygon) Len
+//@   prop C04
+//@   ensures [len] result == sumLen(p, len(p))
+//@   loop 1 `for _, r := range p`
+//@     invariant [sum] 0 <= #1 && #1 <= len(p) && i == sumLen(p, #1)
+
+//@ func (ml MultiLineString) Len
+//@   prop C04
+//@   ensures [len] result == sumLenL(ml, len(ml))
+//@   loop 1 `for _, l := range ml`
+//@     invariant [sum] 0 <= #1 && #1 <= len(ml) && i == sumLenL(ml, #1)
+
+//@ func (b *Bounds) Extend
+//@   prop C04
+//@   mode fp
+//@   requires [nonnil] b != nil
+//@   requires [ok] noNaNBox(*b) && (b2 != nil ==> boxOK(*b2))
+//@   ensures [nil_noop] b2 == nil ==> *b == old(*b)
+//@   ensures [join_min] b2 != nil ==> b.Min.X == goMin(old(b.Min.X), old(b2.Min.X)) && b.Min.Y == goMin(old(b.Min.Y), old(b2.Min.Y))
+//@   ensures [join_max] b2 != nil ==> b.Max.X == goMax(old(b.Max.X), old(b2.Max.X)) && b.Max.Y == goMax(old(b.Max.Y), old(b2.Max.Y))
+//@   modifies *b
